@@ -176,7 +176,8 @@ def run_real(sc, variant=None):
         specs.append(spec)
     outs, times = [], []
     fault = dict(sc["fault"]) if sc.get("fault") and sc["fault"].get("kind") != "untrusted" else None
-    small = bool(fault) and fault.get("kind") == "read-stall"
+    # a small send buffer (a documented pool option) makes partial socket writes certain for the 3 MB uploads
+    small = (bool(fault) and fault.get("kind") == "read-stall") or any(r["body"] == "huge" for r in sc["requests"])
     rec = {"variant": variant}
     with warnings.catch_warnings(record=True) as caught:
         warnings.simplefilter("always", ResourceWarning)
@@ -455,6 +456,9 @@ DETERMINISTIC_FAULTS = (None, "refuse", "connect-stall", "stall", "tls-alert", "
 def diff_scenarios(draw):
     sc = draw(real_scenarios())
     fk = (sc.get("fault") or {}).get("kind")
+    if (fk is None or fk not in DETERMINISTIC_FAULTS) and draw(st.integers(0, 2)) == 0:
+        sc["fault"] = None
+        sc["requests"][0].update(method="POST", body="huge")  # a 3 MB upload: partial socket writes, TLS record splitting, HTTP/2 flow control
     if fk == "truncate" and all(r["body"] is None for r in sc["requests"]):
         pass  # the client never writes while the connection ends: the outcome is a function of the bytes delivered
     elif fk not in DETERMINISTIC_FAULTS:
@@ -493,6 +497,8 @@ def execute_diff(sc) -> Outcome:
                 break
     fired = any(r["fired"] for r in recs.values())
     tags = [sc["kind"], "fault-" + ((sc.get("fault") or {}).get("kind") or "none")]
+    if any(r["body"] == "huge" for r in sc["requests"]):
+        tags.append("upload-3MB-small-send-buffer")
     return Outcome(vio[:4], tags, fired or len(sc["requests"]) > 1, info={"outcomes": {k: [(o.get("status") or o["exc"]["name"]) for o in r["outs"]] for k, r in recs.items()}},
                    metrics={"variant_runs": len(VARIANTS)})
 
